@@ -1,0 +1,44 @@
+//go:build verif
+
+// Contracts for the verification machinery in /verif (comment-only, built only with -tags verif).
+
+package config
+
+// ---- C18: indexes built from the pool map do not depend on map iteration order ----
+
+// PoolsKeyed: data invariant of the pool map built by the parser: no nil pool and every pool is stored under its name.
+//@ pred PoolsKeyed(pools map[string]*Pool) := forall n string :: n in pools ==> pools[n] != nil && pools[n].Name == n
+//@ pred SortedStrict(s []string) := forall i int, j int :: 0 <= i && i < j && j < len(s) ==> s[i] < s[j]
+//@ pred SortedWeak(s []string) := forall i int, j int :: 0 <= i && i < j && j < len(s) ==> !(s[j] < s[i])
+// HasSelectors: the pool is pinned by service selectors.
+//@ pred HasSelectors(p *Pool) := p.ServiceAllocations != nil && len(p.ServiceAllocations.ServiceSelectors) > 0
+
+//@ func poolsByServiceSelector
+//@   requires PoolsKeyed(pools)
+//@   ensures [sorted] SortedWeak(result)
+//@   ensures [members] forall n string :: (n in result) == old(n in pools && HasSelectors(pools[n]))
+//@   ensures result == nil || fresh(result)
+//@   modifies fresh []string
+//@   loop 1 invariant poolsByServiceSelector == nil || fresh(poolsByServiceSelector)
+//@   loop 1 invariant forall n string :: (n in poolsByServiceSelector) == (n in visited && old(HasSelectors(pools[n])))
+//@   loop 1 invariant forall n string :: n in visited ==> n in pools
+//@   assert after sort.Strings: [same] forall n string :: (n in poolsByServiceSelector) == pre(n in poolsByServiceSelector)
+
+// InNamespace: pool n is pinned to namespace ns.
+//@ opaque pred InNamespace(pools map[string]*Pool, n string, ns string) :=
+//@     n in pools && pools[n].ServiceAllocations != nil && ns in pools[n].ServiceAllocations.Namespaces
+// DistinctArrays: the lists of different namespaces do not share a backing array, and all are fresh.
+//@ pred DistinctArrays(m map[string][]string) :=
+//@     (forall a string, b string :: a != b && a in m && b in m && m[a] != nil ==> !sameArray(m[a], m[b]))
+//@     && (forall a string :: a in m && m[a] != nil ==> fresh(m[a]))
+
+//@ func poolsByNamespace
+//@   requires PoolsKeyed(pools)
+//@   ensures [sorted] forall ns string :: ns in result ==> SortedWeak(result[ns])
+//@   ensures result == nil || fresh(result)
+//@   modifies fresh []string, fresh map[string][]string
+//@   loop 1 invariant (poolsForNamespace == nil || fresh(poolsForNamespace)) && DistinctArrays(poolsForNamespace)
+//@   loop 2 invariant (poolsForNamespace == nil || fresh(poolsForNamespace)) && DistinctArrays(poolsForNamespace)
+//@   loop 2 invariant poolsForNamespace != nil || len(pool.ServiceAllocations.Namespaces) == 0
+//@   loop 3 invariant DistinctArrays(poolsForNamespace)
+//@   loop 3 invariant forall ns string :: ns in visited ==> SortedWeak(poolsForNamespace[ns])
